@@ -36,6 +36,9 @@ fn process_plane(input: &mut dyn Read, width: u32, height: u32, output: &mut [u8
 					collen = 0;
 				}
 				while collen > 0 {
+					if indexw >= width {
+						return Err(Error::RdpError(RdpError::new(RdpErrorKind::InvalidData, "RLE plane segment exceed the scanline")))
+					}
 					color = input.read_u8()? as i8;
 					output[out as usize] = color as u8;
 					out += 4;
@@ -43,6 +46,9 @@ fn process_plane(input: &mut dyn Read, width: u32, height: u32, output: &mut [u8
 					collen -= 1;
 				}
 				while replen > 0 {
+					if indexw >= width {
+						return Err(Error::RdpError(RdpError::new(RdpErrorKind::InvalidData, "RLE plane segment exceed the scanline")))
+					}
 					output[out as usize] = color as u8;
 					out += 4;
 					indexw += 1;
@@ -62,6 +68,9 @@ fn process_plane(input: &mut dyn Read, width: u32, height: u32, output: &mut [u8
 					collen = 0;
 				}
 				while collen > 0 {
+					if indexw >= width {
+						return Err(Error::RdpError(RdpError::new(RdpErrorKind::InvalidData, "RLE plane segment exceed the scanline")))
+					}
 					x = input.read_u8()?;
 					if x & 1 != 0{
 						x = x >> 1;
@@ -80,6 +89,9 @@ fn process_plane(input: &mut dyn Read, width: u32, height: u32, output: &mut [u8
 					collen -= 1;
 				}
 				while replen > 0 {
+					if indexw >= width {
+						return Err(Error::RdpError(RdpError::new(RdpErrorKind::InvalidData, "RLE plane segment exceed the scanline")))
+					}
 					x = (output[(last_line + (indexw * 4)) as usize] as i32 + color as i32) as u8;
 					output[out as usize] = x;
 					out += 4;
@@ -100,6 +112,15 @@ pub fn rle_32_decompress(input: &[u8], width: u32, height: u32, output: &mut [u8
 
 	if input_cursor.read_u8()? != 0x10 {
 		return Err(Error::RdpError(RdpError::new(RdpErrorKind::UnexpectedType, "Bad header")))
+	}
+
+	// Nothing to decode for an empty image
+	if width == 0 || height == 0 {
+		return Ok(())
+	}
+
+	if output.len() < width as usize * height as usize * 4 {
+		return Err(Error::RdpError(RdpError::new(RdpErrorKind::InvalidSize, "Output buffer too small")))
 	}
 
 	process_plane(&mut input_cursor, width, height, &mut output[3..])?;
